@@ -188,4 +188,29 @@ DiffKeysAt(A, B, T) ==
         \/ (k \in DOMAIN B /\ \E i \in 1..Len(B[k].H) : ~Near(B[k].H[i], T) /\ ~(k \in DOMAIN A /\ \E j \in 1..Len(A[k].H) : HoldEq(B[k].H[i], A[k].H[j])))
         \/ (ClearlyHeld(A, k, T) /\ ClearlyHeld(B, k, T) /\ A[k].data # B[k].data)}
 
+-----------------------------------------------------------------------------
+\* the same comparisons with the deadline tolerance as a parameter (Tol(a, b) = seconds allowed between holds a and b).
+\* Used where both states were recovered by the same code from record files that should hold the same records (C16:
+\* the compacted files against the files they replaced): a seconds-unit deadline is ct + et + 1 whatever the second
+\* of the start, so it must come back EXACTLY; a minute-unit deadline is computed from the second of the start and
+\* the replay of an update compares deadlines "give or take one minute", so it keeps the general tolerance.
+HoldEqT(a, b, Tol(_, _)) ==
+    /\ a.lid = b.lid /\ a.depth = b.depth /\ a.cnt = b.cnt /\ a.rc = b.rc
+    /\ (a.exp >= INF) = (b.exp >= INF)
+    /\ (a.exp < INF => (a.exp - b.exp <= Tol(a, b) /\ b.exp - a.exp <= Tol(a, b)))
+
+CoveredByT(A, B, T, Tol(_, _)) ==
+    \A k \in DOMAIN A : \A i \in 1..Len(A[k].H) :
+        Near(A[k].H[i], T) \/ (k \in DOMAIN B /\ \E j \in 1..Len(B[k].H) : HoldEqT(A[k].H[i], B[k].H[j], Tol))
+
+StateEqAtT(A, B, T, Tol(_, _)) ==
+    /\ CoveredByT(A, B, T, Tol) /\ CoveredByT(B, A, T, Tol)
+    /\ \A k \in DOMAIN A : (ClearlyHeld(A, k, T) /\ ClearlyHeld(B, k, T)) => A[k].data = B[k].data
+
+DiffKeysAtT(A, B, T, Tol(_, _)) ==
+    {k \in DOMAIN A \cup DOMAIN B :
+        \/ (k \in DOMAIN A /\ \E i \in 1..Len(A[k].H) : ~Near(A[k].H[i], T) /\ ~(k \in DOMAIN B /\ \E j \in 1..Len(B[k].H) : HoldEqT(A[k].H[i], B[k].H[j], Tol)))
+        \/ (k \in DOMAIN B /\ \E i \in 1..Len(B[k].H) : ~Near(B[k].H[i], T) /\ ~(k \in DOMAIN A /\ \E j \in 1..Len(A[k].H) : HoldEqT(B[k].H[i], A[k].H[j], Tol)))
+        \/ (ClearlyHeld(A, k, T) /\ ClearlyHeld(B, k, T) /\ A[k].data # B[k].data)}
+
 =============================================================================
